@@ -4,6 +4,7 @@ import (
 	"encoding/hex"
 	"errors"
 	"io"
+	"runtime"
 	"sync"
 
 	"github.com/Trisia/randomness/simrt"
@@ -106,6 +107,25 @@ func BuildStream(sp StreamSpec, required int64) *Stream {
 		copy(d, p)
 		fillPRF(d[len(p):], sp.TailSd^0x7a11)
 		return &Stream{data: d}
+	case "nibdup", "quad":
+		// structured contents on which the poker verdict depends on m:
+		// nibdup: every byte is a uniformly random nibble repeated (4-bit
+		// patterns uniform, 8-bit patterns confined to 16 values); quad: every
+		// nibble is one of 0011 0110 1100 1001 (2-bit patterns uniform, 4-bit
+		// patterns confined to 4 values)
+		d := make([]byte, required+int64(sp.Tail))
+		r := simctl.NewRand(sp.Seed)
+		q := []byte{0x3, 0x6, 0xc, 0x9}
+		for i := range d {
+			v := r.Uint64()
+			if sp.Kind == "nibdup" {
+				n := byte(v & 0xf)
+				d[i] = n<<4 | n
+			} else {
+				d[i] = q[v&3]<<4 | q[(v>>2)&3]
+			}
+		}
+		return &Stream{data: d}
 	case "biased":
 		d := make([]byte, required+int64(sp.Tail))
 		r := simctl.NewRand(sp.Seed)
@@ -146,6 +166,16 @@ func appendU(b []byte, v uint64) []byte {
 		b = append(b, byte(v>>(8*uint(i))))
 	}
 	return b
+}
+
+// stir perturbs the real scheduler a little (race monitor only).
+func stir(x uint64) {
+	x = (x ^ 0x9E3779B97F4A7C15) * 0xBF58476D1CE4E5B9
+	if x>>61 == 0 {
+		for i := uint64(0); i < (x>>32)%4+1; i++ {
+			runtime.Gosched()
+		}
+	}
 }
 
 // ReadRec is one Read as seen at the device.
@@ -256,6 +286,9 @@ func (s *SimSource) Read(p []byte) (int, error) {
 	s.mu.Unlock()
 	if yield {
 		simrt.Yield("device.read")
+	}
+	if !s.sim {
+		stir(uint64(s.Reads))
 	}
 	s.mu.Lock()
 	defer s.mu.Unlock()
